@@ -82,10 +82,12 @@ fn node_deps_has(g: &DepsGraph, node: &Dependency, what: &Dependency) -> bool {
         None => false,
     }
 }
+/// unwinding bound 3 = map stub capacity 2 + 1: with 5 the same harnesses drive one CBMC process beyond 60 GB (the drop
+/// glue and the visit of the nested map types are recursive)
 macro_rules! graph_instances {
     ($( $name:ident => $body:expr; )*) => { $(
         #[kani::proof]
-        #[kani::unwind(5)]
+        #[kani::unwind(3)]
         pub(crate) fn $name() { $body }
     )* };
 }
@@ -172,14 +174,14 @@ fn g2_cycle_terminates() {
 }
 graph_instances! {
     c05_g1_insert => g1_insert();
+    c05_g1_rewire_grow => g1_rewire_small(true);
+    c05_g1_rewire_shrink => g1_rewire_small(false);
 }
 // NOT registered in obligations.toml — measured on the pinned tree with map_cap 2 / 3: a single CBMC process grows
 // beyond 60 GB (rewire, two inserts) or does not finish symbolic execution in 50 min (sort / visit). Kept so that the
 // obligations are written down and can be tried again with a better back end.
 graph_instances! {
     x_c05_g1_rewire => g1_rewire();
-    x_c05_g1_rewire_grow => g1_rewire_small(true);
-    x_c05_g1_rewire_shrink => g1_rewire_small(false);
     x_c05_g2_sort_one => g2_sort_one();
     x_c05_g2_chain_order => g2_chain_order();
     x_c08_g2_cycle_terminates => g2_cycle_terminates();
